@@ -112,6 +112,8 @@ for _a in range(4):
         _H.append(dict(name="c47_coercion_%s_%s" % (_DECS[_a], _DECS[_b]), complete=True,
                        bound="loop-free: every precision/scale pair Arrow accepts with scales >= -40, minus the pairs on which the i8 precision arithmetic of get_wider_decimal_type overflows (observation O6)",
                        what="binary_numeric_coercion(decimal, decimal): symmetric; scale never reduced, integer digits kept or clamped at the maximum precision"))
+_H.append(dict(name="c47_operator_mirror_and_negation", complete=True,
+               what="Operator::swap / negate for the eight comparison operators against SQL's three-valued comparison of two nullable i64 values (all values): the mirrored operator on swapped operands gives the same answer, swap is an involution, the negated operator gives the negated answer"))
 KANI = [dict(package="datafusion-expr-common", module="expr_common/casts.rs", timeout=900, jobs=8, harnesses=_H)]
 TRUSTED = ["Verus 0.2026.09.13 + bundled Z3", "type model of DataType / ScalarValue restricted to the variants the function distinguishes", "assume_specification i128::pow == vstd pow, requires the power to fit",
            "Arrow's MIN/MAX_DECIMAL*_FOR_EACH_PRECISION tables assumed to hold +-(10^p - 1) (R13)", "is_lossy_temporal_cast / cast_between_timestamp opaque"]
